@@ -45,7 +45,7 @@ pub fn unescape(s: &str) -> Option<String> {
 			'x' => {
 				let c = IntoIterator::into_iter([chars.next()?, chars.next()?])
 					.map(|c| c.to_digit(16))
-					.try_fold(0u32, |acc, v| Some((acc << 8) | (v?)))?;
+					.try_fold(0u32, |acc, v| Some((acc << 4) | (v?)))?;
 				out.push(char::from_u32(c)?)
 			}
 			_ => return None,
